@@ -112,14 +112,20 @@ Arguments cw_count : clear implicits.
 Arguments cw_synsets : clear implicits.
 
 (* ---------- load(): WordNet::Similarity weight lines, already tokenised -------- *)
-(* (synset, class, weight, is_root): freq[pos][ssid] = weight; roots add to the total *)
-Definition load_entry (lines : list (node * Z * Q * bool)) (k : key) : Q :=
+(* (synset, class, weight, is_root): freq[pos][ssid] = weight (a later line for the same synset
+   replaces an earlier one); lines marked ROOT add to the total of their class.  [cls] is the class
+   of the wordnet's own synsets: the entry read back for synset t is freq[cls t][t]. *)
+Definition line := (node * Z * Q * bool)%type.
+Definition line_names (cls : node -> Z) (t : node) (l : line) : bool :=
+  match l with (s, c, _, _) => Z.eqb s t && Z.eqb c (cls t) end.
+Definition line_root_of (c : Z) (l : line) : bool :=
+  match l with (_, c', _, r) => r && Z.eqb c' c end.
+Definition line_weight (l : line) : Q := match l with (_, _, w, _) => w end.
+
+Definition load_entry (cls : node -> Z) (lines : list line) (k : key) : Q :=
   match k with
-  | Syn t =>
-      fold_left (fun acc l => match l with (s, _, w, _) => if Z.eqb s t then w else acc end) lines 0
-  | Total c =>
-      fold_left (fun acc l => match l with (_, c', w, r) =>
-                                if r && Z.eqb c' c then acc + w else acc end) lines 0
+  | Syn t => fold_left (fun acc l => if line_names cls t l then line_weight l else acc) lines 0
+  | Total c => fold_left (fun acc l => if line_root_of c l then acc + line_weight l else acc) lines 0
   end.
 
 (* ---------- wire format ----------
@@ -164,3 +170,16 @@ Definition agree_ic (m i : sx) : bool :=
       && forall2b agree_q (sx_list (sx_nth 1 m)) (sx_list (sx_nth 1 i))
   | _, _ => false
   end.
+
+(* ---------- wire format of load() ----------
+   case   = L [ L [ L [node; cls] ...]; L [ L [node; cls; num; den; A root] ...] ]
+   result = as for compute *)
+Definition run_load (c : sx) : sx :=
+  let tbl := map (fun e => (sx_z (sx_nth 0 e), sx_z (sx_nth 1 e))) (sx_list (sx_nth 0 c)) in
+  let lines := map (fun e => (sx_z (sx_nth 0 e), sx_z (sx_nth 1 e),
+                              Qmake (sx_z (sx_nth 2 e)) (Z.to_pos (sx_z (sx_nth 3 e))),
+                              sx_bool (sx_nth 4 e)))
+                   (sx_list (sx_nth 1 c)) in
+  L [ L (map (fun kv => sx_of_q (fst kv) (load_entry (cls_of tbl) lines (Syn (fst kv))))
+             (filter (fun kv => Z.leb 0 (snd kv)) tbl));
+      L (map (fun k => sx_of_q k (load_entry (cls_of tbl) lines (Total k))) [0; 1; 2; 3]%Z) ].
